@@ -23,6 +23,12 @@ CHECKS['C02'] = dict(text='For every triple of versions (any 64-bit epochs, comp
 CHECKS['C06'] = dict(text='Arch.Is / ArchSet.Matches on architectures whose components are symbolic names (exhaustive up to renaming), GetPossibilities/GetAllPossibilities/GetSubstvars on dependencies with symbolic flags, and SatisfiedBy on symbolic (op, N, V) are executed symbolically from go/ssa; on every path z3 shows agreement with the statement written as a reference in the harness (field-wise any-or-equal, list admission, first admitted non-substvar alternative, operator table over the reference order).',
              note='Trusted: go/ssa, the interpreter and its models, z3. The reference order is the harness specCompare (validated against the SMT formulation in C01).',
              ref='DESIGN.md 2/C06')
+CHECKS['C07'] = dict(text='Every byte string up to the stated length goes symbolically through the real NewParagraphReader/Next (with the real bufio.Reader and strings.Reader executed from their own SSA): every returned paragraph must have a value for exactly the fields it lists, each once. Deb822 documents generated from a model (paragraph/field/value shapes, LF/CRLF, comments, blank-line runs, final newline; leaves symbolic) must come back as exactly the model through the Next loop, All() and Unmarshal into a slice (reflect modelled over the interpreter heap).',
+             note='Trusted: go/ssa, the interpreter, the reflect model and the leaf models, z3. Values are compared on logical lines (one trailing newline not significant; an empty first line before continuation lines is not a line).',
+             ref='DESIGN.md 2/C07')
+CHECKS['C08'] = dict(text='For every value over {newline, space, tab, ".", "a"} up to the stated length that is a sequence of text lines, the real WriteTo output is shown to contain no blank line, to read back (real reader) to the same logical lines, and to be stable under a second cycle without growth; every C07 document is pushed through read-write-read; k paragraphs through one Encoder decode to k structs.',
+             note='Trusted as for C07. fmt.Sprintf("%s: %s") and strings.Split/Join/TrimSuffix are contract models.',
+             ref='DESIGN.md 2/C08')
 NA = {}
 props = [json.loads(l) for l in open(os.path.join(V, 'properties.jsonl'))]
 checks = []
